@@ -49,6 +49,10 @@ def generate_rerun(seed, S):
            {'op': 'AddVariable', 'sector': 's1', 'name': 'G', 'eqn': '0.0'},
            {'op': 'GetVariableName', 'sector': 's1', 'var': 'G', 'save_as': 'g_late'},
            {'op': 'AddCashFlow', 'sector': 's1', 'term': '-G', 'eqn': None}]
+    if rng.random() < 0.6:
+        # a name requested before the refused run (a placeholder at that time) and used only afterwards
+        ops.insert(5, {'op': 'GetVariableName', 'sector': 's0', 'var': 'C', 'save_as': 'c_early'})
+        ops.append({'op': 'AddVariable', 'sector': 's1', 'name': 'HHCONS', 'eqn': '0.5*{name:c_early}'})
     use = rng.choice(['cashflow', 'variable', 'both'])
     if use in ('cashflow', 'both'):
         ops.append({'op': 'AddCashFlow', 'sector': 's0', 'term': '+{name:g_late}', 'eqn': None})
